@@ -88,6 +88,11 @@ def make_domain(rng, n, kind):
         A = np.vstack([np.eye(n), -np.eye(n)])
         b = np.array([1.0] * n + [-0.5] * n)
         K = [('+', 2 * n)]
+    elif kind in ('negorthant', 'posorthant'):
+        # unbounded cones {x <= 0} / {x >= 0}: upper / lower bounds on every monomial e^{x_j}
+        A = (-1.0 if kind == 'negorthant' else 1.0) * np.eye(n)
+        b = np.zeros(n)
+        K = [('+', n)]
     elif kind == 'halfspace':
         A = np.array([[float(rng.choice([1, -1, 2, 0.5, -1.5])) for _ in range(n)]])
         b = np.array([float(rng.choice([0, 1, 3, 0.5]))])
